@@ -131,6 +131,16 @@ func refineByCond(s *ByteSet, cond ssa.Value, truth bool, is byteEq) *ByteSet {
 			return s.filter(func(i int) bool { return yes.has(i) })
 		}
 		return s.filter(func(i int) bool { return no.has(i) })
+	case *ssa.Phi:
+		// a boolean that remembers earlier tests of the value (`isDigit := c >= '0' && c <= '9'`): the bytes for
+		// which it is true / false, computed by byteSetsFor from the sets that flow into its edges
+		if tf, ok := phiTruth[c]; ok {
+			want := tf[0]
+			if !truth {
+				want = tf[1]
+			}
+			return s.filter(func(i int) bool { return want.has(i) })
+		}
 	case *ssa.UnOp:
 		if c.Op == token.NOT {
 			return refineByCond(s, c.X, !truth, is)
@@ -186,7 +196,63 @@ func refineByCond(s *ByteSet, cond ssa.Value, truth bool, is byteEq) *ByteSet {
 
 // byteSetsFor computes, for every block of fn, the set of values v may have
 // on entry to the block (blocks not dominated by v's definition get the full set).
+// phiTruth: for boolean phis, the bytes for which the phi is true / false (valid during one byteSetsFor run).
+var phiTruth = map[*ssa.Phi][2]*ByteSet{}
+
 func byteSetsFor(fn *ssa.Function, is byteEq, defBlock *ssa.BasicBlock) map[*ssa.BasicBlock]*ByteSet {
+	saved := phiTruth
+	defer func() { phiTruth = saved }()
+	phiTruth = map[*ssa.Phi][2]*ByteSet{}
+	in := byteSetsPass(fn, is, defBlock)
+	for round := 0; round < 4; round++ {
+		// recompute the truth sets of boolean phis from the current (sound, over-approximate) sets
+		next := map[*ssa.Phi][2]*ByteSet{}
+		for _, b := range fn.Blocks {
+			for _, ins := range b.Instrs {
+				ph, ok := ins.(*ssa.Phi)
+				if !ok {
+					break
+				}
+				if bt, ok := ph.Type().Underlying().(*types.Basic); !ok || bt.Kind() != types.Bool {
+					continue
+				}
+				t, f := emptySet(), emptySet()
+				for j, p := range b.Preds {
+					se := in[p]
+					if iff, ok := p.Instrs[len(p.Instrs)-1].(*ssa.If); ok && len(p.Succs) == 2 && p.Succs[0] != p.Succs[1] {
+						se = refineByCond(se, iff.Cond, p.Succs[0] == b, is)
+					}
+					switch ev := ph.Edges[j].(type) {
+					case *ssa.Const:
+						if ev.Value != nil && ev.Value.String() == "true" {
+							t = t.union(se)
+						} else {
+							f = f.union(se)
+						}
+					default:
+						t = t.union(refineByCond(se, ev, true, is))
+						f = f.union(refineByCond(se, ev, false, is))
+					}
+				}
+				next[ph] = [2]*ByteSet{t, f}
+			}
+		}
+		same := len(next) == len(phiTruth)
+		for k, v := range next {
+			if o, ok := phiTruth[k]; !ok || !o[0].eq(v[0]) || !o[1].eq(v[1]) {
+				same = false
+			}
+		}
+		if same || len(next) == 0 {
+			break
+		}
+		phiTruth = next
+		in = byteSetsPass(fn, is, defBlock)
+	}
+	return in
+}
+
+func byteSetsPass(fn *ssa.Function, is byteEq, defBlock *ssa.BasicBlock) map[*ssa.BasicBlock]*ByteSet {
 	in := map[*ssa.BasicBlock]*ByteSet{}
 	for _, b := range fn.Blocks {
 		in[b] = emptySet()
